@@ -1,4 +1,5 @@
 import os
+import shutil
 import zipfile
 
 import joblib
@@ -40,3 +41,20 @@ def run_unzip_jobs(jobargs, num_workers):
         jobs = [joblib.delayed(unzip)(src, dst) for src, dst in jobargs]
         pool = joblib.Parallel(n_jobs=num_workers)
         pool(jobs)
+
+
+def delete_folder_content(folder, keep):
+    """
+    deletes everything inside folder except the file keep (folder itself and keep are not touched), so
+    a process that is killed while deleting leaves a folder behind that still contains keep
+    """
+    # list the entries before anything is deleted (like shutil.rmtree does)
+    with os.scandir(folder) as it:
+        entries = list(it)
+    for entry in entries:
+        if entry.name == keep:
+            continue
+        if entry.is_dir(follow_symlinks=False):
+            shutil.rmtree(entry.path)
+        else:
+            os.unlink(entry.path)
